@@ -87,6 +87,38 @@ def _enclosing_handlers(ctx, fn, node) -> list[str]:
     return out
 
 
+def _is_first_missing(r, pol: bool, ex: ast.expr) -> bool:
+    """fact `m is not None` (or truthy m) where m = next((x for x in xs if not exists(x)), None): some path does not exist"""
+    name = None
+    if (not pol) and isinstance(ex, ast.Compare) and len(ex.ops) == 1 and isinstance(ex.ops[0], ast.Is) and isinstance(ex.comparators[0], ast.Constant) and ex.comparators[0].value is None and isinstance(ex.left, ast.Name):
+        name = ex.left
+    elif pol and isinstance(ex, ast.Name):
+        name = ex
+    if name is None:
+        return False
+    v = r.expand(name)
+    if isinstance(v, ast.NamedExpr):
+        v = v.value
+    if not (isinstance(v, ast.Call) and call_name(v) == "next" and len(v.args) == 2 and isinstance(v.args[0], (ast.GeneratorExp, ast.ListComp))):
+        return False
+    if not (isinstance(v.args[1], ast.Constant) and v.args[1].value is None):
+        return False
+    from ..flow import cond_facts
+
+    facts = set()
+    for g in v.args[0].generators:
+        for c in g.ifs:
+            facts |= cond_facts(c, True)
+    for p2, txt in facts:
+        try:
+            e2 = ast.parse(txt, mode="eval").body
+        except SyntaxError:
+            continue
+        if (not p2) and isinstance(e2, ast.Call) and (call_name(e2) or "").endswith("exists"):
+            return True
+    return False
+
+
 def rule_status_map(ctx, rep):
     rep.rule(
         "R-STATUS-MAP",
@@ -98,6 +130,14 @@ def rule_status_map(ctx, rep):
     run = ctx.prog.func(RUN)
     main = ctx.prog.func(MAIN)
     fa = ctx.flow(run)
+    run_r = ctx.resolver(run)
+
+    def hev(h):
+        t = h.type
+        names = ["<bare>"] if t is None else ([last_attr(e) or unparse(e) for e in t.elts] if isinstance(t, ast.Tuple) else [last_attr(t) or unparse(t)])
+        return "EV:handler:" + ",".join(names)
+
+    fa_ev = FlowAnalysis(run.node, node_event=hev)
     # main must exit with run's status
     ok_main = False
     for n in walk_no_nested(main.node):
@@ -119,32 +159,43 @@ def rule_status_map(ctx, rep):
         if val == 0:
             rep.instance("R-STATUS-MAP", run.qname, run.loc(ret), True, detail="return 0")
             continue
-        handlers = _enclosing_handlers(ctx, run, ret)
-        must = fa.must_at(ret)
-        cls = None
-        if handlers:
-            want = {HANDLER_STATUS.get(h) for h in handlers}
-            cls = f"handler({','.join(handlers)})"
-            ok = want == {val}
-            why = f"returns {val} in the handler of {handlers}, documented status is {sorted(x for x in want if x is not None) or '?'}"
-        else:
-            exists_false = any(
-                (not pol) and isinstance(ex, ast.Call) and (call_name(ex) or "").endswith("exists")
-                for pol, ex in fact_exprs(must)
-            )
+        # every alternative under which this return is reached must be a documented failure condition with this status
+        st = fa_ev.state_at(ret)
+        classes = set()
+        ok = st is not None
+        why = ""
+        for must, may in (st.parts if st is not None else []):
+            hs = sorted(t[len("EV:handler:"):] for pol, t in must if pol and t.startswith("EV:handler:"))
+            handlers = [h for grp in hs for h in grp.split(",")]
+            facts = list(fact_exprs(must))
+            exists_false = any((not pol) and isinstance(ex, ast.Call) and (call_name(ex) or "").endswith("exists") for pol, ex in facts) \
+                or any(_is_first_missing(run_r, pol, ex) for pol, ex in facts)
             report_failed = any(
                 any(isinstance(c, ast.Call) and last_attr(c.func) == "write_report" for c in ast.walk(ex)) or "report_status" in names_in(ex)
-                for pol, ex in fact_exprs(must)
+                or any(isinstance(run_r.expand(nm), ast.Call) and last_attr(run_r.expand(nm).func) == "write_report" for nm in ast.walk(ex) if isinstance(nm, ast.Name))
+                for pol, ex in facts
             )
-            if exists_false:
-                cls, ok = "missing-path", val == 1
-                why = f"returns {val} for a missing directory / result file, documented status is 1"
+            if handlers:
+                want = {HANDLER_STATUS.get(h) for h in handlers}
+                classes.add(f"handler({','.join(handlers)})")
+                if want != {val}:
+                    ok = False
+                    why = f"returns {val} after the handler of {handlers}, documented status is {sorted(x for x in want if x is not None) or '?'}"
+            elif exists_false:
+                classes.add("missing-path")
+                if val != 1:
+                    ok = False
+                    why = f"returns {val} for a missing directory / result file, documented status is 1"
             elif report_failed:
-                cls, ok = "report-write-failed", val == 2
-                why = f"returns {val} for a failed report write, documented status is 2"
+                classes.add("report-write-failed")
+                if val != 2:
+                    ok = False
+                    why = f"returns {val} for a failed report write, documented status is 2"
             else:
-                cls, ok = "unclassified", False
-                why = f"non-zero status {val} is not dominated by any documented failure condition"
+                classes.add("unclassified")
+                ok = False
+                why = f"non-zero status {val} is reachable on a path that is not dominated by any documented failure condition"
+        cls = "+".join(sorted(classes)) or "unreachable"
         rep.check("R-STATUS-MAP", run.qname, run.loc(ret), ok and val in (1, 2, 3), f"return {val}:{cls}", why)
 
     # sys.exit(<int>) anywhere reachable from main
@@ -242,16 +293,22 @@ def rule_ai_config(ctx, rep):
         if not raises:
             continue
         fa = ctx.flow(fn)
+        from ..flow import cond_facts
+
         conds = set()
+        cond_tests = []
         for r_ in raises:
             par = ctx.parents(fn).get(id(r_))
-            if isinstance(par, ast.If):
+            if isinstance(par, ast.If) and any(x is r_ for st in par.body for x in ast.walk(st)):
                 conds.add(unparse(par.test))
+                cond_tests.append(par.test)
         for ex in fa.exits:
             if ex.kind != "return" or not isinstance(ex.value, ast.Call):
                 continue
             n += 1
-            ok = bool(conds) and all((False, c) in ex.state.must for c in conds)
+            # the exit must be unreachable while any raising condition holds: adding "C is true" to each alternative of the
+            # exit state contradicts what is known there (independent of how C or its negation is spelled)
+            ok = bool(cond_tests) and all(ex.state.add(cond_facts(t, True)) is None for t in cond_tests)
             rep.check("R-AI-CONFIG", fn.qname, fn.loc(ex.node), ok, f"return {unparse(ex.value.func)}",
                       f"a client is returned on a path where the consistency check `{sorted(conds)[0] if conds else '?'}` has not been evaluated: "
                       "an inconsistent AI configuration then completes with status 0 instead of 3")
